@@ -698,7 +698,7 @@ class Abstractor:
         w = v if sign == 1 else -v
         if u.eq(w):
             return True
-        if not s._fp_close(s.fp(u), s.fp(v), sign):
+        if not s._fp_close(s.fp(u), s.fp(v), sign) and not s._eq_hyps_touch(u, v):
             return False
         d = z3.simplify(u - w)
         if z3.is_rational_value(d):
@@ -734,6 +734,15 @@ class Abstractor:
         if r != z3.unsat and os.environ.get('VERIF_DEBUG_MISS'):
             print('MISS: fingerprints agree but no proof (%s): sizes %d %d' % (r, len(subterms([u])), len(subterms([v]))), flush=True)
         return r == z3.unsat
+
+    def _eq_hyps_touch(s, u, v):
+        """is there an installed (small) hypothesis that is an EQUATION mentioning a symbol of u or v?  Then u == v may hold
+        under it although the two terms differ as functions, and the fingerprint filter must not be used."""
+        eqs = [h for h in s.small_hyps() if z3.is_eq(h) and not z3.is_bool(h.arg(0))]
+        if not eqs:
+            return False
+        names = set(free_symbols([u, v]))
+        return any(names & set(free_symbols([h])) for h in eqs)
 
     def is_one(s, u):
         c = s._const(u)
